@@ -17,7 +17,7 @@ def run(tier, seed):
     common.nohooks_leg(chk, "ctxlimit", maxlen=300, extra="512,65536")
     common.mc_leg(chk, "MC_Format", tier=tier, workers=12)
     common.mc_leg(chk, "MC_Format", cfg=common.MC_DIR + "/MC_Format_noguard.cfg", expect_violation=True, workers=4)
-    common.mc_leg(chk, "MC_API", tier=tier)
+    common.mc_leg(chk, "MC_API")
     chk.cov["exhaustive"] = True
     chk.cov["exhaustive_note"] = "all context lengths in the stated range, per set and mode class; message and key are sampled"
     return chk.finish()
